@@ -16,7 +16,7 @@ meta = {
     "needs_to_manifest": needs,
     "demonstration": {"file": os.path.basename(demo), "place_in": pkg, "run": f"GOFLAGS=-mod=mod GOPROXY=off GOSUMDB=off go test -vet=off -count=1 -run '{run}' ./{pkg}/"},
     "confirmed": "confirm_mutant.sh in a fresh scratch worktree: patch applies to HEAD; the repository's own tests pass with it; the demonstration passes without the change and fails with it",
-    "checks_run": "seedcheck.sh <worktree> <all 17 properties> (quick tier, VERIF_SEED=1)",
+    "checks_run": os.environ.get("CHECKS_RUN", "seedcheck.sh <worktree> <all 17 properties> (quick tier, VERIF_SEED=1)"),
     "caught_by": [c for c in caught.split(",") if c],
     "missed_by_own_check_before_strengthening": [c for c in missed.split(",") if c],
     "note": note,
